@@ -46,6 +46,104 @@ pub struct Scn {
     /// permutation part: the order (indices into the captured fragment list) delivered to a
     /// fresh receiver
     pub order: Vec<usize>,
+    /// part "seq": the datagram sent (and polled to quiescence) BEFORE the one described by the
+    /// fields above
+    pub first: Option<Dgp>,
+    /// octet the devices pre-fill every transmit buffer with
+    pub fill: u8,
+}
+
+/// parameters of one UDP datagram
+#[derive(Clone, Debug, PartialEq, Eq, PartialOrd, Ord)]
+pub struct Dgp {
+    pub src: AddrClass,
+    pub dst: AddrClass,
+    pub sport: u16,
+    pub dport: u16,
+    pub hl: u8,
+    pub len: usize,
+}
+impl Dgp {
+    pub fn to_json(&self) -> Value {
+        json!({"src": self.src.name(), "dst": self.dst.name(), "sport": self.sport, "dport": self.dport, "hl": self.hl, "len": self.len})
+    }
+    pub fn from_json(v: &Value) -> Option<Dgp> {
+        if !v.is_object() {
+            return None;
+        }
+        Some(Dgp {
+            src: AddrClass::from_name(v["src"].as_str().unwrap_or("ll-hw")),
+            dst: AddrClass::from_name(v["dst"].as_str().unwrap_or("ll-hw")),
+            sport: v["sport"].as_u64().unwrap_or(1234) as u16,
+            dport: v["dport"].as_u64().unwrap_or(1234) as u16,
+            hl: v["hl"].as_u64().unwrap_or(64) as u8,
+            len: v["len"].as_u64().unwrap_or(0) as usize,
+        })
+    }
+}
+
+pub const FILL: u8 = 0xa5;
+
+/// (802.15.4 MAC header, compressed IPv6(+UDP) header, uncompressed header, body octets that are
+/// not payload) the sender is expected to produce. Used ONLY for stimulus selection (boundary
+/// lengths, size classes) and for naming size classes in labels -- never as an oracle; the
+/// evidence reports whether the predicted thresholds were observed.
+#[allow(clippy::too_many_arguments)]
+pub fn hdr_sizes(s_hw: HwKind, r_hw: HwKind, src: AddrClass, dst: AddrClass, sport: u16, dport: u16, hl: u8, proto: Proto) -> (usize, usize, usize, usize) {
+    let l2 = |hw: HwKind| if hw == HwKind::Ext { 8 } else { 2 };
+    let mac = 3 + 2 + if dst.is_mcast() { 2 } else { l2(r_hw) } + l2(s_hw);
+    let a = |c: AddrClass| match c {
+        AddrClass::LlHw => 0,
+        AddrClass::Ll16 => 2,
+        AddrClass::Ll64 => 8,
+        AddrClass::Global | AddrClass::Ctx | AddrClass::McFull | AddrClass::LlWideA | AddrClass::LlWideB => 16,
+        AddrClass::McAllNodes | AddrClass::Mc8 => 1,
+        AddrClass::Mc32 => 4,
+        AddrClass::Mc48 | AddrClass::McSolicited => 6,
+    };
+    let hlb = if matches!(hl, 1 | 64 | 255) { 0 } else { 1 };
+    let iphc = 2 + hlb + a(src) + a(dst);
+    match proto {
+        Proto::Udp => {
+            let both4 = |p: u16| (0xf0b0..=0xf0bf).contains(&p);
+            let any8 = |p: u16| (0xf000..=0xf0ff).contains(&p);
+            let ports = if both4(sport) && both4(dport) {
+                1
+            } else if any8(sport) || any8(dport) {
+                3
+            } else {
+                4
+            };
+            (mac, iphc + 3 + ports, 48, 0)
+        }
+        _ => (mac, iphc + 1, 40, 8),
+    }
+}
+/// (largest unfragmented body, body octets in FRAG1, body octets per full FRAGN)
+pub fn frag_plan(mac: usize, ch: usize, uh: usize) -> (i64, i64, i64) {
+    let avail = 125usize.saturating_sub(mac);
+    let diff = uh - ch.min(uh);
+    let frag1 = ((avail.saturating_sub(4) + diff) / 8 * 8).saturating_sub(diff);
+    let fragn = avail.saturating_sub(5) / 8 * 8;
+    (avail as i64 - ch as i64, frag1 as i64 - ch as i64, fragn as i64)
+}
+/// payload lengths representing the size classes 1 frame / 2 frames / 3 frames
+pub fn size_class_lens(s_hw: HwKind, r_hw: HwKind, d: &Dgp) -> [usize; 3] {
+    let (mac, ch, uh, _) = hdr_sizes(s_hw, r_hw, d.src, d.dst, d.sport, d.dport, d.hl, Proto::Udp);
+    let (t, p1, fn_) = frag_plan(mac, ch, uh);
+    [10, (t + 8).max(11) as usize, (p1 + fn_ + 8).max(12) as usize]
+}
+pub fn size_class(s_hw: HwKind, r_hw: HwKind, d: &Dgp) -> &'static str {
+    let (mac, ch, uh, _) = hdr_sizes(s_hw, r_hw, d.src, d.dst, d.sport, d.dport, d.hl, Proto::Udp);
+    let (t, p1, fn_) = frag_plan(mac, ch, uh);
+    let l = d.len as i64;
+    if l <= t {
+        "1-frame"
+    } else if l <= p1 + fn_ {
+        "2-frames"
+    } else {
+        "3+-frames"
+    }
 }
 
 impl Scn {
@@ -63,12 +161,37 @@ impl Scn {
             hl: 64,
             lens: vec![],
             order: vec![],
+            first: None,
+            fill: FILL,
         }
+    }
+    /// parameters of the datagram described by the top-level fields (with payload length `len`)
+    pub fn main_dg(&self, len: usize) -> Dgp {
+        Dgp { src: self.src, dst: self.dst, sport: self.sport, dport: self.dport, hl: self.hl, len }
+    }
+    /// all datagrams of a UDP scenario, in sending order
+    pub fn dgs(&self) -> Vec<Dgp> {
+        let mut v = vec![];
+        if self.part == "seq" {
+            if let Some(f) = &self.first {
+                v.push(f.clone());
+            }
+        }
+        for &l in &self.lens {
+            v.push(self.main_dg(l));
+        }
+        v
+    }
+    pub fn dg_src(&self, d: &Dgp) -> Ipv6Address {
+        unicast_addr(0, self.s_hw, d.src)
+    }
+    pub fn dg_dst(&self, d: &Dgp) -> Ipv6Address {
+        dst_addr(self.r_hw, d.dst)
     }
     pub fn to_json(&self) -> Value {
         json!({"part": self.part, "s_hw": self.s_hw.name(), "r_hw": self.r_hw.name(), "src": self.src.name(),
             "dst": self.dst.name(), "pan": self.pan, "mtu": self.mtu, "sport": self.sport, "dport": self.dport,
-            "hl": self.hl, "lens": self.lens, "order": self.order})
+            "hl": self.hl, "lens": self.lens, "order": self.order, "first": self.first.as_ref().map(|f| f.to_json()), "fill": self.fill})
     }
     pub fn from_json(v: &Value) -> Scn {
         let us = |k: &str| v[k].as_u64().unwrap_or(0);
@@ -86,6 +209,8 @@ impl Scn {
             hl: us("hl") as u8,
             lens: list("lens"),
             order: list("order"),
+            first: Dgp::from_json(&v["first"]),
+            fill: v["fill"].as_u64().unwrap_or(FILL as u64) as u8,
         }
     }
     pub fn proto(&self) -> Proto {
@@ -96,21 +221,21 @@ impl Scn {
         }
     }
     pub fn world_cfg(&self, med: Med) -> WorldCfg {
-        let uni = |c: AddrClass| !c.is_mcast() && c != AddrClass::LlHw;
-        let s_extra = if uni(self.src) {
-            Some(self.src)
-        } else if uni(self.dst) {
-            Some(self.dst)
-        } else {
-            None
-        };
-        let r_extra = if uni(self.dst) {
-            Some(self.dst)
-        } else if uni(self.src) {
-            Some(self.src)
-        } else {
-            None
-        };
+        let (s_need, r_need) = self.needed_extras();
+        let cap = smoltcp::config::IFACE_MAX_ADDR_COUNT.saturating_sub(1);
+        // give each node the other side's classes too while there is room (shared prefixes)
+        let mut s_extra = s_need.clone();
+        let mut r_extra = r_need.clone();
+        for c in &r_need {
+            if s_extra.len() < cap && !s_extra.contains(c) {
+                s_extra.push(*c);
+            }
+        }
+        for c in &s_need {
+            if r_extra.len() < cap && !r_extra.contains(c) {
+                r_extra.push(*c);
+            }
+        }
         let mtu = match (med, self.proto()) {
             (Med::Lowpan, _) => self.mtu,
             // TCP: same MTU so that both worlds segment alike; UDP/ICMP: the reference world must
@@ -126,7 +251,8 @@ impl Scn {
             r_hw: self.r_hw,
             s_extra,
             r_extra,
-            r_any_ip: self.dst.needs_any_ip(),
+            r_any_ip: self.dst.needs_any_ip() || self.first.as_ref().is_some_and(|f| f.dst.needs_any_ip()),
+            fill: self.fill,
             proto: self.proto(),
             tcp_buf: 4096,
         }
@@ -141,13 +267,41 @@ impl Scn {
     /// part in neighbor discovery: `RawHardwareAddress::parse` wants 8 octets, so nobody can
     /// resolve it; it can still send to multicast, and to a unicast neighbor that solicited it)
     pub fn feasible(&self) -> bool {
-        if self.r_hw == HwKind::Short && !self.dst.is_mcast() {
-            return false;
+        let mut all = vec![(self.src, self.dst)];
+        if let Some(f) = &self.first {
+            all.push((f.src, f.dst));
         }
-        if self.s_hw == HwKind::Short && !self.dst.is_mcast() && self.dst != AddrClass::LlHw {
-            return false;
+        for (_, dst) in all {
+            if self.r_hw == HwKind::Short && !dst.is_mcast() {
+                return false;
+            }
+            if self.s_hw == HwKind::Short && !dst.is_mcast() && dst != AddrClass::LlHw {
+                return false;
+            }
         }
-        true
+        let (s_need, r_need) = self.needed_extras();
+        let cap = smoltcp::config::IFACE_MAX_ADDR_COUNT.saturating_sub(1);
+        s_need.len() <= cap && r_need.len() <= cap
+    }
+    /// address classes (besides LlHw) S must own (sources) and R must own (unicast destinations)
+    pub fn needed_extras(&self) -> (Vec<AddrClass>, Vec<AddrClass>) {
+        let uni = |c: AddrClass| !c.is_mcast() && c != AddrClass::LlHw;
+        let mut s_need = vec![];
+        let mut r_need = vec![];
+        let mut all = vec![];
+        if let Some(f) = &self.first {
+            all.push((f.src, f.dst));
+        }
+        all.push((self.src, self.dst));
+        for (src, dst) in all {
+            if uni(src) && !s_need.contains(&src) {
+                s_need.push(src);
+            }
+            if uni(dst) && !r_need.contains(&dst) {
+                r_need.push(dst);
+            }
+        }
+        (s_need, r_need)
     }
 }
 
@@ -156,8 +310,9 @@ impl Scn {
 /// the failure to its baseline value and derives the final, minimal cause label with `label_of`.
 pub fn cause(scn: &Scn, _nfrag1: usize) -> String {
     format!(
-        "{}|src={},dst={},hw={}-{},ports={:#06x}x{:#06x},hl={},pan={},mtu={}",
+        "{}|first={},src={},dst={},hw={}-{},ports={:#06x}x{:#06x},hl={},pan={},mtu={},fill={}",
         scn.part,
+        scn.first.as_ref().map(|f| format!("{}>{}:{:#06x}x{:#06x}:{}:{}", f.src.name(), f.dst.name(), f.sport, f.dport, f.hl, size_class(scn.s_hw, scn.r_hw, f))).unwrap_or_default(),
         scn.src.name(),
         scn.dst.name(),
         scn.s_hw.name(),
@@ -166,7 +321,8 @@ pub fn cause(scn: &Scn, _nfrag1: usize) -> String {
         scn.dport,
         scn.hl,
         scn.pan,
-        scn.mtu
+        scn.mtu,
+        scn.fill
     )
 }
 
@@ -209,6 +365,9 @@ pub fn label_of(scn: &Scn, interrupted: bool) -> String {
     if scn.mtu != 1500 {
         p.push(format!("mtu={}", scn.mtu));
     }
+    if scn.fill != FILL {
+        p.push(format!("tx-buffer-prefill={:#04x}", scn.fill));
+    }
     if scn.src != AddrClass::LlHw {
         p.push(format!("src={}", scn.src.name()));
     }
@@ -223,6 +382,26 @@ pub fn label_of(scn: &Scn, interrupted: bool) -> String {
     }
     if scn.part == "b2b" {
         p.push("two-datagrams-back-to-back".into());
+    }
+    if scn.part == "seq" {
+        if let (Some(f), Some(&l)) = (&scn.first, scn.lens.first()) {
+            p.push(size_class(scn.s_hw, scn.r_hw, &scn.main_dg(l)).into());
+            let mut q: Vec<String> = vec![];
+            if f.src != AddrClass::LlHw {
+                q.push(format!("src={}", f.src.name()));
+            }
+            if f.dst != AddrClass::LlHw {
+                q.push(format!("dst={}", f.dst.name()));
+            }
+            if f.hl != 64 {
+                q.push(format!("hl={}", f.hl));
+            }
+            if (f.sport, f.dport) != (1234, 1234) {
+                q.push(format!("nhc-ports {}", nhc_port_mode(f.sport, f.dport)));
+            }
+            q.push(size_class(scn.s_hw, scn.r_hw, f).into());
+            p.push(format!("after-a-datagram[{}]", q.join(",")));
+        }
     }
     if p.is_empty() {
         "baseline".into()
@@ -377,15 +556,25 @@ pub struct Out {
 /// dedicated warm-up sockets; returns false when the forward warm-up datagram did not arrive
 pub fn prepare(w: &mut World, scn: &Scn) -> bool {
     let mut ok = true;
-    if !scn.dst.is_mcast() {
-        let s_ll = unicast_addr(0, scn.s_hw, AddrClass::LlHw);
-        let r_ll = unicast_addr(1, scn.r_hw, AddrClass::LlHw);
+    let s_ll = unicast_addr(0, scn.s_hw, AddrClass::LlHw);
+    let r_ll = unicast_addr(1, scn.r_hw, AddrClass::LlHw);
+    let mut dsts: Vec<AddrClass> = vec![];
+    if let Some(f) = &scn.first {
+        dsts.push(f.dst);
+    }
+    if !dsts.contains(&scn.dst) {
+        dsts.push(scn.dst);
+    }
+    let uni: Vec<AddrClass> = dsts.iter().copied().filter(|d| !d.is_mcast()).collect();
+    if !uni.is_empty() {
         if scn.s_hw == HwKind::Short {
             // R cannot resolve S, but its solicitation teaches S where R is
             let _ = w.warm(false, r_ll, s_ll);
             w.warm_reset(false);
         }
-        ok = w.warm(true, s_ll, scn.dst_addr());
+        for d in &uni {
+            ok &= w.warm(true, s_ll, dst_addr(scn.r_hw, *d));
+        }
         if scn.proto() != Proto::Udp && scn.s_hw == HwKind::Ext {
             // replies flow R -> S: resolve that direction too (for every source S may use)
             let srcs: Vec<Ipv6Address> = w.s.addrs.clone();
@@ -396,7 +585,6 @@ pub fn prepare(w: &mut World, scn: &Scn) -> bool {
     } else if scn.proto() != Proto::Udp {
         // echo replies to a multicast request come from one of R's addresses
         let srcs: Vec<Ipv6Address> = w.s.addrs.clone();
-        let r_ll = unicast_addr(1, scn.r_hw, AddrClass::LlHw);
         for a in srcs {
             ok &= w.warm(false, r_ll, a);
         }
@@ -413,17 +601,31 @@ pub fn prepare(w: &mut World, scn: &Scn) -> bool {
 pub fn udp_exchange(w: &mut World, scn: &Scn) -> Out {
     w.clear_logs();
     w.too_long.clear();
-    let (src, dst) = (scn.src_addr(), scn.dst_addr());
+    let dgs = scn.dgs();
     let mut accepted = vec![];
-    for (i, &l) in scn.lens.iter().enumerate() {
-        accepted.push(w.udp_send(src, dst, scn.dport, &pattern(l, i)));
-    }
-    let total: usize = scn.lens.iter().sum();
-    let quiescent = w.settle(80 + total / 30);
+    let mut quiescent = true;
+    let mut udp = vec![];
     let h = w.r.udp;
+    if scn.part == "seq" {
+        // one datagram at a time, each polled to quiescence; sockets re-bound in between
+        // (ports / hop limit may differ) -- the interfaces and their buffers live on
+        for (i, d) in dgs.iter().enumerate() {
+            w.udp_rebind(d.sport, d.dport, d.hl);
+            accepted.push(w.udp_send(scn.dg_src(d), scn.dg_dst(d), d.dport, &pattern(d.len, i)));
+            quiescent &= w.settle(80 + d.len / 30);
+            udp.extend(World::udp_drain(&mut w.r, h));
+        }
+    } else {
+        for (i, d) in dgs.iter().enumerate() {
+            accepted.push(w.udp_send(scn.dg_src(d), scn.dg_dst(d), d.dport, &pattern(d.len, i)));
+        }
+        let total: usize = scn.lens.iter().sum();
+        quiescent = w.settle(80 + total / 30);
+        udp.extend(World::udp_drain(&mut w.r, h));
+    }
     Out {
         accepted,
-        udp: World::udp_drain(&mut w.r, h),
+        udp,
         raw: std::mem::take(&mut w.raw_r),
         frames: std::mem::take(&mut w.s2r),
         back_frames: std::mem::take(&mut w.r2s),
@@ -525,22 +727,16 @@ pub struct Verdict {
 /// and against the reference world.
 pub fn eval_udp(scn: &Scn, lo: &Out, ip: Option<&Out>, acc: &mut Acc) -> Verdict {
     let proto = Proto::Udp;
-    let (src, dst) = (scn.src_addr().octets(), scn.dst_addr().octets());
+    let dgs = scn.dgs();
     let nfrag1 = lo.frames.iter().filter(|f| matches!(lowpan_kind(f), LowpanKind::Frag1 { .. })).count();
     let cz = cause(scn, nfrag1);
     let ctx = |extra: &str| -> String {
-        format!(
-            "{} | scenario {} | S={} -> R={} sport={:#06x} dport={:#06x} hl={} lens={:?} | frames S->R:{}",
-            extra,
-            scn.to_json(),
-            ip6(&src),
-            ip6(&dst),
-            scn.sport,
-            scn.dport,
-            scn.hl,
-            scn.lens,
-            frames_text(&lo.frames, true)
-        )
+        let d: Vec<String> = dgs
+            .iter()
+            .enumerate()
+            .map(|(i, d)| format!("#{}: {} -> {} sport={:#06x} dport={:#06x} hl={} len={}", i, scn.dg_src(d), scn.dg_dst(d), d.sport, d.dport, d.hl, d.len))
+            .collect();
+        format!("{} | scenario {} | datagrams [{}] | frames S->R:{}", extra, scn.to_json(), d.join("; "), frames_text(&lo.frames, true))
     };
     let mut rebuild = false;
     // frame clause
@@ -556,12 +752,11 @@ pub fn eval_udp(scn: &Scn, lo: &Out, ip: Option<&Out>, acc: &mut Acc) -> Verdict
         rebuild = true;
     }
     // expectation: what S's socket accepted
-    let exp: Vec<(usize, UdpObs)> = scn
-        .lens
+    let exp: Vec<(usize, UdpObs)> = dgs
         .iter()
         .enumerate()
         .filter(|(i, _)| lo.accepted[*i])
-        .map(|(i, &l)| (i, UdpObs { payload: pattern(l, i), src, sport: scn.sport, local: dst }))
+        .map(|(i, d)| (i, UdpObs { payload: pattern(d.len, i), src: scn.dg_src(d).octets(), sport: d.sport, local: scn.dg_dst(d).octets() }))
         .collect();
     let inb: Vec<bool> = exp.iter().map(|(_, e)| 48 + e.payload.len() <= max_ipv6_len()).collect();
     // safety: nothing but what was sent, each at most once
@@ -630,14 +825,15 @@ pub fn eval_udp(scn: &Scn, lo: &Out, ip: Option<&Out>, acc: &mut Acc) -> Verdict
                     i,
                     e.payload.len(),
                     48 + e.payload.len(),
-                    scn.dport,
+                    dgs[*i].dport,
                     rawtxt,
                     lo.back_frames.len()
                 )),
                 scn,
             );
-            // an unfragmented datagram leaves nothing behind in either interface
-            rebuild |= lo.frames.len() > 1;
+            // an unfragmented datagram that went out leaves nothing behind in either interface
+            // (one that never went out is still queued in the sender's socket)
+            rebuild |= lo.frames.len() != 1;
         }
     }
     // Order BETWEEN datagrams is not part of the statement (and UDP does not promise it): an
@@ -649,12 +845,18 @@ pub fn eval_udp(scn: &Scn, lo: &Out, ip: Option<&Out>, acc: &mut Acc) -> Verdict
     acc.interrupted |= interrupted(&lo.frames);
     // reconstructed datagram vs reference world
     if let Some(ip) = ip {
-        let ip_ok = ip.udp.len() == exp.len() && ip.udp.iter().zip(exp.iter()).all(|(a, (_, e))| a == e);
+        let exp_ip: Vec<UdpObs> = dgs
+            .iter()
+            .enumerate()
+            .filter(|(i, _)| ip.accepted[*i])
+            .map(|(i, d)| UdpObs { payload: pattern(d.len, i), src: scn.dg_src(d).octets(), sport: d.sport, local: scn.dg_dst(d).octets() })
+            .collect();
+        let ip_ok = ip.udp == exp_ip;
         if !ip_ok {
             if acc.machinery.len() < 20 && inb.iter().all(|b| *b) {
                 acc.machinery.push(format!("reference (Medium::Ip) world did not deliver what was sent: {}", scn.to_json()));
             }
-        } else if all_delivered && inb.iter().all(|b| *b) {
+        } else if all_delivered && ip.accepted == lo.accepted && inb.iter().all(|b| *b) {
             // compared as multisets (see the note on order above)
             let sorted = |v: &Vec<UdpObs>| {
                 let mut v = v.clone();
@@ -838,7 +1040,7 @@ pub fn run_b2b(scn: &Scn, acc: &mut Acc) {
         Ok((lo, io)) => {
             let v = eval_udp(scn, &lo, Some(&io), acc);
             acc.frames += (lo.frames.len() + lo.back_frames.len()) as u64;
-            acc.outcome(format!("b2b {} datagrams-needing-fragmentation={}", if v.all_delivered { "both-delivered" } else { "not-both-delivered" }, v.nfrag1));
+            acc.outcome(format!("{} {} datagrams-needing-fragmentation={}", scn.part, if v.all_delivered { "both-delivered" } else { "not-both-delivered" }, v.nfrag1));
         }
         Err(e) => panic_viol(scn, e, acc, "6LoWPAN world (back to back)"),
     }
